@@ -10,7 +10,12 @@ RULE = ("[CORE CASES: a share of the cases (names core*) runs the same front-end
         "word, and the pulsed core stub must never have to pulse rdata.valid into ready=0; writer: the (address, data) pairs "
         "stored must equal the input stream in order, each exactly once; non-trivial iff >=60 words moved, the consumer "
         "(reader) was stalled while reads were in flight / the producer (writer) was back-pressured; distinct = distinct "
-        "(engine, port type, depth, buffered, stall profile)")
+        "(engine, port type, depth, buffered, stall profile).  ENABLE cases (names *-en*): a third of the reader cases drop `enable` "
+        "(flush) at random moments and raise it once the memory side is quiet; epoch-wise oracle (gap-free prefix while enabled, "
+        "ordered subsequence during the flush, nothing of an old epoch after re-enable, final epoch complete).  CSR cases (names "
+        "csr*): with_csr=True engines programmed through base / length / loop / enable; the command stream must be base .. "
+        "base+length-1 (repeated in loop mode), data / last / stored pairs as above, done set exactly after the last address "
+        "(never in loop mode)")
 ASSUMPTIONS = [
     "Migen simulator semantics",
     "native port: pulsed abstract core stub (rdata.valid regardless of ready, as the real crossbar); AXI port: in-order AXI "
@@ -44,6 +49,20 @@ def cases(tier, seed):
         c["name"] = "%04d-%s-%s-d%d%s-%s%s" % (k, c["engine"], c["port"], c["fifo_depth"], "b" if c["buffered"] else "", c["profile"],
                                                  "-en" + c["toggle"] if c.get("toggle") else "")
         c["cost"] = c["nwords"]
+        out.append(c)
+    # CSR-driven mode (with_csr=True, the form LiteX SoCs use): the engine generates base .. base+length-1 itself
+    for k in range(24 if tier == "quick" else 160):
+        r = random.Random("C12/%d/%s/csr/%d" % (seed, tier, k))
+        c = dict(engine=["reader", "writer"][k % 2], port="native", csr=True, fifo_depth=[1, 2, 4, 16][(k // 2) % 4], buffered=bool((k // 8) % 2),
+                 profile=PROFILES[(k // 2) % 4], dw=r.choice([32, 64]), length_words=r.choice([1, 2, 7, 16, 33, 64]),
+                 base_words=r.randrange(0, 1 << 13), loop=bool((k // 4) % 2), cmd_ready_prob=r.choice([1.0, 0.7, 0.3]),
+                 extra_lat=r.choice([(0, 0), (0, 10), (0, 40)]), long_stall=r.choice([0, 0, 0.01]), src_valid=r.choice([1.0, 0.8, 0.3]),
+                 nwords=0, seed="C12/%d/csr/%d" % (seed, k))
+        if c["buffered"] and c["fifo_depth"] < 2:
+            c["fifo_depth"] = 2
+        c["name"] = "csr%03d-%s-d%d%s-%s-len%d%s" % (k, c["engine"], c["fifo_depth"], "b" if c["buffered"] else "", c["profile"],
+                                                     c["length_words"], "-loop" if c["loop"] else "")
+        c["cost"] = 120
         out.append(c)
     # the same engines on a port of the real crossbar + controller + reference DRAM
     for k in range(12 if tier == "quick" else 96):
@@ -167,7 +186,140 @@ def check_epochs(tog, src, snk, exp, complete):
     return v
 
 
+def run_csr_case(c):
+    """with_csr=True: base / length / loop / enable registers, internal address generator, done / offset status."""
+    from .. import shim  # noqa
+    from migen import Module
+    from litedram.common import LiteDRAMNativePort
+    from litedram.frontend.dma import LiteDRAMDMAReader, LiteDRAMDMAWriter
+    from ..stub import CoreStub, Store
+    from ..streams import StreamSource, StreamSink
+    from ..core import run_sim
+    r = random.Random(c["seed"])
+    aw, dw = 14, c["dw"]
+    nb = dw // 8
+    store = Store(nb)
+    port = LiteDRAMNativePort("both", aw, dw)
+    reader = c["engine"] == "reader"
+
+    class DUT(Module):
+        def __init__(self):
+            cls = LiteDRAMDMAReader if reader else LiteDRAMDMAWriter
+            self.submodules.dma = cls(port, fifo_depth=c["fifo_depth"], fifo_buffered=c["buffered"], with_csr=True)
+
+    dut = DUT()
+    dma = dut.dma
+    stub = CoreStub([port], store, r, cmd_ready_prob=c["cmd_ready_prob"], extra_lat=tuple(c["extra_lat"]), long_stall=c["long_stall"],
+                    max_outstanding=40)
+    L, B = c["length_words"], c["base_words"]
+    laps = r.randint(2, 4) if c["loop"] else 1
+    total = L * laps
+    exp_addrs = [(B + (i % L)) % (1 << aw) for i in range(total)]
+    state = dict(done=False, done_flag_at=None, done_early=False, offsets=set())
+    v = []
+    if reader:
+        snk = StreamSink(dma.source, ["data", "last"], r, **sink_profile(c, r))
+        procs = [stub.process(), snk.process()]
+    else:
+        words = [r.getrandbits(dw) for _ in range(total + 8)]
+        src = StreamSource(dma.sink, [dict(data=w) for w in words], r, valid_prob=c["src_valid"])
+        procs = [stub.process()]
+
+    def ctrl():
+        yield [dma._base.storage.eq(B * nb), dma._length.storage.eq(L * nb), dma._loop.storage.eq(int(c["loop"])), dma._enable.storage.eq(0)]
+        for _ in range(r.randint(3, 12)):
+            yield
+        yield dma._enable.storage.eq(1)
+        yield
+        yield
+        t = 0
+        while True:
+            done, off = yield [dma._done.status, dma._offset.status]
+            state["offsets"].add(off)
+            n_cmd = len(stub.accepted[0])
+            if done and state["done_flag_at"] is None:
+                state["done_flag_at"] = n_cmd
+                if n_cmd < L and not c["loop"]:
+                    state["done_early"] = True
+            moved = len(snk.got) if reader else stub.writes_done()
+            if moved != state.get("moved"):
+                state["moved"], t = moved, 0
+            t += 1
+            if c["loop"]:
+                if moved >= total:
+                    yield dma._enable.storage.eq(0)     # stop the loop
+                    for _ in range(80):
+                        yield
+                    break
+            elif done and moved >= total and stub.outstanding() == 0:
+                for _ in range(80):
+                    yield
+                break
+            if t > 6000:
+                v.append(dict(kind="no-progress", moved=moved, of=total, done_flag=bool(done)))
+                break
+            yield
+        state["done"] = True
+
+    # the writer's producer starts after the engine left its idle state (a word offered while disabled is dropped by design)
+    def gated_src():
+        yield "passive"
+        for _ in range(24):
+            yield
+        yield from src.process()
+
+    if not reader:
+        procs.append(gated_src())
+    cycles, reason = run_sim(dut, procs + [ctrl()], lambda: state["done"], 400000, wall_limit=600)
+    if reason == "wall":
+        return dict(verdict="inconclusive", why="wall-clock watchdog", violations=[], stats={}, nontrivial=False, signature="")
+    v += list(stub.events)
+    acc = [a for (_, we, a) in stub.accepted[0]]
+    wes = set(we for (_, we, a) in stub.accepted[0])
+    if wes - {0 if reader else 1}:
+        v.append(dict(kind="wrong-command-direction", seen=sorted(wes)))
+    if acc[:total] != exp_addrs[:len(acc[:total])] or len(acc) < total:
+        k = next((i for i in range(min(len(acc), total)) if acc[i] != exp_addrs[i]), min(len(acc), total))
+        v.append(dict(kind="csr-mode-address-sequence-differs", index=k, expected=exp_addrs[k:k + 3], got=acc[k:k + 3], base_word=B,
+                      length_words=L, loop=c["loop"], n_commands=len(acc)))
+    if not c["loop"]:
+        if len(acc) > total:
+            v.append(dict(kind="csr-mode-more-commands-than-length", commands=len(acc), length_words=L))
+        if state["done_flag_at"] is None:
+            v.append(dict(kind="csr-mode-done-never-set", commands=len(acc), length_words=L))
+        if state["done_early"]:
+            v.append(dict(kind="csr-mode-done-before-all-addresses-issued", commands_at_done=state["done_flag_at"], length_words=L))
+    elif state["done_flag_at"] is not None:
+        v.append(dict(kind="csr-mode-done-set-in-loop-mode"))
+    if reader:
+        exp = [(store.read(a), int((i % L) == L - 1)) for i, a in enumerate(exp_addrs)]
+        got = [(g["data"], g["last"]) for (_, g) in snk.got]
+        if got[:total] != exp[:len(got[:total])] or len(got) < total:
+            k = next((i for i in range(min(len(got), total)) if got[i] != exp[i]), min(len(got), total))
+            v.append(dict(kind="reader-output-differs", index=k, n_expected=total, n_got=len(got),
+                          expected=[(hex(d), l) for d, l in exp[k:k + 2]], got=[(hex(d), l) for d, l in got[k:k + 2]]))
+        moved = len(got)
+    else:
+        got = stub.write_sequence()
+        exp = list(zip(exp_addrs, words))
+        got2 = [(a, d) for (a, d, we) in got]
+        if got2[:total] != exp[:len(got2[:total])] or len(got2) < total:
+            k = next((i for i in range(min(len(got2), total)) if got2[i] != exp[i]), min(len(got2), total))
+            v.append(dict(kind="writer-stored-sequence-differs", index=k, n_expected=total, n_got=len(got2),
+                          expected=[(a, hex(d)) for a, d in exp[k:k + 2]], got=[(a, hex(d)) for a, d in got2[k:k + 2]]))
+        if any(we != (1 << nb) - 1 for (a, d, we) in got):
+            v.append(dict(kind="writer-partial-byte-enables"))
+        moved = len(got2)
+    if max(state["offsets"] or [0]) > L:      # offset == length is the legitimate end state of a non-looping run
+        v.append(dict(kind="csr-mode-offset-status-out-of-range", max_offset=max(state["offsets"]), length_words=L))
+    st = dict(words=moved, cycles=cycles, laps=laps, length_words=L, offsets_seen=len(state["offsets"]), max_outstanding=stub.max_out_seen)
+    sig = "|".join(str(x) for x in ("csr", c["engine"], c["fifo_depth"], c["buffered"], c["profile"], L, c["loop"]))
+    return dict(verdict="violated" if v else "held", violations=v[:8], stats=st, nontrivial=(moved >= total) or bool(v), signature=sig)
+
+
 def run_case(c):
+    if c.get("csr"):
+        return run_csr_case(c)
     from .. import shim  # noqa
     from migen import Module
     from litedram.common import LiteDRAMNativePort
